@@ -173,10 +173,13 @@ theorem C18_mirgen_fallthrough_innermost (bs : Cfg) (sh : Sh) (hl : arms bs = (l
     a ∈ arms bs ∧ a.contains b = true ∧ ∀ a' ∈ arms bs, a'.contains b = true → a.inside a' = true :=
   C18_fallthrough_arm_is_innermost bs (by simp [nested, hl, (lay_ok sh 0).nest]) b a h
 
-/-- … and all its arms lie after the block it starts in and end at or before the block it finishes in -/
+/-- … all its arms are non-empty, lie after the block it starts in, end at or before the block it finishes in, and merge
+at or after their end (the arm part of `forward`) -/
 theorem C18_mirgen_layout_bounds (sh : Sh) (cur : Nat) :
-    cur ≤ (lay sh cur).cur ∧ ∀ a ∈ (lay sh cur).arms, cur < a.start ∧ a.stop ≤ (lay sh cur).cur :=
-  ⟨(lay_ok sh cur).le, (lay_ok sh cur).bnd⟩
+    cur ≤ (lay sh cur).cur ∧
+    ∀ a ∈ (lay sh cur).arms, cur < a.start ∧ a.start < a.stop ∧ a.stop ≤ a.merge ∧ a.stop ≤ (lay sh cur).cur :=
+  ⟨(lay_ok sh cur).le, fun a ha =>
+    ⟨((lay_ok sh cur).bnd a ha).1, ((lay_ok sh cur).fw a ha).1, ((lay_ok sh cur).fw a ha).2, ((lay_ok sh cur).bnd a ha).2⟩⟩
 
 /-- the emitted fall-through tail of block `b` is exactly that arm: `pred_bb = arm.start; bb = arm.merge; continue` -/
 theorem C18_fallthrough_edge_is_last_arm (bs : Cfg) (b : Nat) (hb : b < bs.length) :
